@@ -20,12 +20,20 @@ ops (see lean/Driver/LshD.lean):
   tlsh.dist <buckets> <window> <chklen> <d1> <d2> <form oo|ob|bo|bb|all> <lvalue T/F>   -> per form `dxy;dyx;dxx`
   tlsh.ddist <buckets> <window> <chklen> <force> <m1> <m2> <lvalue>                     -> `oo;ob;bo;bb;oo(y,x);oo(x,x)`
   nilsimsa <target> <data>    nilsimsa.tran <target>    nilsimsa.dist <d1> <d2>
+  tlsh.calls <buckets|S> <window> <chklen> <step>…      ONE TLSH object (`S 5 1`: the module singleton crysp.tlsh.tlsh) through a history:
+                                                        c:<T|F>:<data> call | cl:<T|F>:<l-list> call with a list of ints (a value > 255 raises
+                                                        inside update()) | u:<data> / ul:<l-list> update without digest | f:<T|F>:<data> final
+                                                        without digest | h:<digest> from_hash — a call that returns None, a forced call, a call
+                                                        that raises, a dangling update, a reloaded digest, then normal calls
+  nilsimsa.calls <target> <step>…                       ONE Nilsimsa object: c:F:<data> | cl:F:<l-list> | u:<data> | ul:<l-list>
+      every call's result must be the one-shot digest of THAT call's arguments (reference of lsh_ref.py; model: Model.Tlsh.tlsh /
+      Model.Nilsimsa.nilsimsa of the step's arguments alone), whatever the object went through before.
 """
 from props.common import *
 from props.parts import lsh_ref as R
 
 ID = 'C19'
-LEAN_PROOFS = ['Proofs.C19']
+LEAN_PROOFS = ['Proofs.C19', 'Proofs.C19.Calls']
 GEN_ITEMS = ['Lsh']
 REF_MAX = 1500
 RULE = ('op lines = TLSH digests over the full grid buckets{48,128,256} x window 4..8 x checksum length {1,3} at lengths 0,1,w-1,w,48..52,254..258 '
@@ -37,7 +45,9 @@ RULE = ('op lines = TLSH digests over the full grid buckets{48,128,256} x window
         'expressions as written in the source evaluated on all float pairs q<=q3<1024 (thorough 4096) against integer division; '
         'l_capturing enumerated densely by ranges; from_hash on arbitrary byte strings of the right and '
         'wrong lengths; distances in all object/bytes forms on random, equal, header-wrap-around and cross-configuration pairs; Nilsimsa tables for every '
-        'target 0..255, digests at lengths 0..12, around the threshold steps and random; distinct lines; non-trivial = a digest / a number was returned')
+        'target 0..255, digests at lengths 0..12, around the threshold steps and random; histories of calls on ONE TLSH object / the module singleton / '
+        'ONE Nilsimsa object (a call returning None, a forced call, a call raising inside update(), a dangling update, from_hash, final without digest, '
+        'then normal calls): every digest against the one-shot digest of its own arguments; distinct lines; non-trivial = a digest / a number was returned')
 TRUSTED = ['libm log: l_capturing is an uninterpreted parameter `lcap : Nat -> Nat` in every theorem; the compiled driver instantiates it with Lean Float.log '
            '(IEEE double, same libm), compared with the real code densely over data_len by the correspondence stream (tlsh.lcaprange)',
            'quartile ratios int(q*100./q3)%16 are modelled by integer floor division (exact for bucket counts < 2^47: argument in lean/Model/Tlsh.lean); '
@@ -145,9 +155,121 @@ def q_nibbles_fail(b, c, bk, res):
     return None
 
 
+# ---------------------------------------------------------------------------------------------
+# ONE object through a history of calls (tlsh.calls / nilsimsa.calls)
+def parse_calls(toks):
+    steps = []
+    for st in toks:
+        f = st.split(':')
+        k = f[0]
+        if k in ('c', 'cl', 'f') and len(f) == 3: steps.append((k, unbo(f[1]), unil(f[2]) if k == 'cl' else unhx(f[2])))
+        elif k in ('u', 'ul', 'h') and len(f) == 2: steps.append((k, None, unil(f[1]) if k == 'ul' else unhx(f[1])))
+        else: raise RuntimeError('step ' + st)
+    if not steps: raise RuntimeError('no step')
+    return steps
+
+
+def calls_tok(k, force, data):
+    d = il(data) if k in ('cl', 'ul') else hx(data)
+    return '%s:%s:%s' % (k, bo(force), d) if k in ('c', 'cl', 'f') else '%s:%s' % (k, d)
+
+
+def _fresh_tlsh_module():
+    """a private instance of the module crysp.tlsh: its singleton `tlsh` is this line's alone (whatever a line leaves in the
+    singleton of the worker's imported module would otherwise meet the lines that worker runs next)"""
+    import importlib.util
+    spec = importlib.util.find_spec('crysp.tlsh')
+    m = importlib.util.module_from_spec(spec)
+    spec.loader.exec_module(m)
+    return m
+
+
+def run_calls(op, a):
+    def mark(f):
+        try: f()
+        except (KeyboardInterrupt, SystemExit): raise
+        except Exception as e:
+            if type(e).__name__ == '_Timeout': raise
+            return '!'
+        return '.'
+    def dig(f):
+        def g():
+            r = f()
+            return 'none' if r is None else hx(r)
+        return guarded(g)
+    if op == 'tlsh.calls':
+        steps = parse_calls(a[3:])
+        if a[0] == 'S':
+            if (a[1], a[2]) != ('5', '1'): raise RuntimeError('the singleton is TLSH(128)')
+            box = []
+            if guarded(lambda: box.append(_fresh_tlsh_module().tlsh) or 'ok') == 'ERR': return 'ERR'
+        else:
+            from crysp import tlsh as T
+            box = []
+            if guarded(lambda: box.append(T.TLSH(int(a[0]), int(a[1]), int(a[2]))) or 'ok') == 'ERR': return 'ERR'
+        o, out = box[0], []
+        for k, force, data in steps:
+            if k in ('c', 'cl'): out.append(dig(lambda: o(data, force)))
+            elif k in ('u', 'ul'): out.append(mark(lambda: o.update(data)))
+            elif k == 'f': mark(lambda: o.final(data, force)); out.append('.')
+            else: out.append(mark(lambda: o.from_hash(data)))
+        return ';'.join(out)
+    from crysp import nilsimsa as N
+    steps = parse_calls(a[1:])
+    box = []
+    if guarded(lambda: box.append(N.Nilsimsa(int(a[0]))) or 'ok') == 'ERR': return 'ERR'
+    o, out = box[0], []
+    for k, force, data in steps:
+        if k in ('c', 'cl') and force is False: out.append(dig(lambda: o(data)))
+        elif k in ('u', 'ul'): out.append(mark(lambda: o.update(data)))
+        else: raise RuntimeError('step of a Nilsimsa line')
+    return ';'.join(out)
+
+
+def check_calls(op, a, res):
+    """every step is judged on its own arguments: what came before on the object must not show"""
+    bad = lambda i, why: '%s step %d of %d on one object (%s…; history: %s): %s' % (
+        op, i + 1, len(steps), toks[i][:24], ' '.join(t.split(':')[0] for t in toks[:i]) or 'none', why)
+    big = lambda d: any(v > 255 for v in d)
+    if op == 'tlsh.calls':
+        toks = a[3:]; steps = parse_calls(toks)
+        b, w, c = (128, 5, 1) if a[0] == 'S' else (int(a[0]), int(a[1]), int(a[2]))
+        if not cfg_valid(b, w, c): return None if res == 'ERR' else '%s: invalid configuration accepted' % op
+        outs = res.split(';')
+        if len(outs) != len(steps): return '%s: %d results for %d steps' % (op, len(outs), len(steps))
+        for i, ((k, force, data), got) in enumerate(zip(steps, outs)):
+            raises = big(data) and len(data) >= w
+            if k in ('c', 'cl'):
+                if raises: exp = 'ERR'
+                elif len(data) < 50 or (not force and len(data) < 256): exp = 'none'
+                elif len(data) <= REF_MAX:
+                    r = R.tlsh(b, w, c, bytes(data), force); exp = 'none' if r is None else hx(r)
+                else:
+                    if got == 'ERR': return bad(i, 'exception instead of a digest or None')
+                    continue
+                if got != exp: return bad(i, 'the call returned %s, the one-shot reference digest of its arguments is %s' % (got[:80], exp[:80]))
+            elif k in ('u', 'ul'):
+                if got != ('!' if raises else '.'): return bad(i, 'update %s' % ('raised' if got == '!' else 'accepted a value > 255'))
+            elif k == 'h':
+                if got != ('.' if len(data) == dlen(b, c) else '!'): return bad(i, 'from_hash %s' % ('raised' if got == '!' else 'accepted a malformed digest'))
+        return None
+    toks = a[1:]; steps = parse_calls(toks); t = int(a[0])
+    outs = res.split(';')
+    if len(outs) != len(steps): return '%s: %d results for %d steps' % (op, len(outs), len(steps))
+    for i, ((k, force, data), got) in enumerate(zip(steps, outs)):
+        raises = big(list(data)[1:-1])
+        if big(data) and not raises: return None          # outside the protocol
+        if k in ('c', 'cl'):
+            exp = 'ERR' if raises else hx(R.nilsimsa(t, bytes(data)))
+            if got != exp: return bad(i, 'the call returned %s, the one-shot reference digest of its argument is %s' % (got[:80], exp[:80]))
+        elif got != ('!' if raises else '.'): return bad(i, 'update %s' % ('raised' if got == '!' else 'accepted a value > 255'))
+    return None
+
+
 def run_impl(line):
     t = line.split()
     op, a = t[0], t[1:]
+    if op in ('tlsh.calls', 'nilsimsa.calls'): return run_calls(op, a)
     if op.startswith('nilsimsa'):
         from crysp import nilsimsa as N
         def go():
@@ -221,6 +343,7 @@ def run_impl(line):
 def check_impl(line, res):
     t = line.split(); op, a = t[0], t[1:]
     bad = lambda why: '%s: %s' % (op, why)
+    if op in ('tlsh.calls', 'nilsimsa.calls'): return check_calls(op, a, res)
     if op == 'nilsimsa':
         d = unhx(a[1])
         if res == 'ERR': return bad('exception')
@@ -503,6 +626,78 @@ def final_lines(tier, rng):
     for lo in range(0, top, step): yield 'tlsh.qexact %d %d' % (max(lo, 1), lo + step), 'qexact.all-float-pairs-q<=q3<%d' % top
 
 
+def calls_lines(tier, rng):
+    """histories on ONE object: what a call leaves behind (data_len / checksum of an input that gave no digest, the buckets of a
+    dangling update, the fields of a reloaded digest, the half-done state of a call that raised) must not show in the next call"""
+    rb, tx, few = gens(rng)
+    quick = tier == 'quick'
+    def tl(cfg, steps): return 'tlsh.calls %s %s %s %s' % (cfg[0], cfg[1], cfg[2], ' '.join(calls_tok(*st) for st in steps))
+    def patterns(cfg, w):
+        b = 128 if cfg[0] == 'S' else cfg[0]
+        c = 1 if cfg[0] == 'S' else cfg[2]
+        good = lambda: rng.choice([rb, tx])(rng.randrange(300, 520))
+        short = lambda: rng.choice([rb, tx])(rng.randrange(50, 256))          # >= 50, < 256: None unless forced
+        tiny = lambda: rb(rng.randrange(1, 50))
+        uniform = lambda: bytes([rng.getrandbits(8)]) * rng.randrange(256, 400)  # long enough, too few buckets populated: None
+        def poison():
+            d = list(good()); d[rng.choice([len(d) - 1, len(d) - 2, rng.randrange(w, len(d))])] = rng.choice([256, 300, 1 << 20]); return d
+        G = good()
+        yield 'after-none-short', [('c', False, short()), ('c', False, G)]
+        yield 'after-none-uniform', [('c', False, uniform()), ('c', False, G)]
+        yield 'after-none-tiny-forced', [('c', True, tiny()), ('c', True, short()), ('c', False, G)]
+        yield 'after-forced', [('c', True, short()), ('c', False, G), ('c', False, short()), ('c', True, short())]
+        yield 'after-raise', [('cl', False, poison()), ('c', False, G)]
+        yield 'after-raise-early', [('cl', False, [999] + list(good())), ('c', False, G), ('cl', True, list(G)), ('c', False, G)]
+        yield 'after-update', [('u', None, rb(77)), ('c', False, G)]
+        yield 'after-update-raise', [('ul', None, poison()), ('c', False, G)]
+        yield 'after-long-update', [('u', None, good()), ('u', None, good()), ('c', False, G), ('c', True, short())]
+        yield 'after-from_hash', [('h', None, rb(dlen(b, c))), ('c', False, G)]
+        yield 'after-from_hash-malformed', [('h', None, rb(dlen(b, c) + rng.choice([-1, 1, -5]))), ('c', False, G)]
+        yield 'after-final', [('f', False, good()), ('c', False, G)]
+        yield 'after-final-none', [('f', False, short()), ('c', False, G), ('f', True, short()), ('c', False, G)]
+        yield 'none-then-raise-then-normal', [('c', False, G), ('c', False, short()), ('u', None, rb(77)), ('cl', False, poison()), ('c', False, G)]
+        yield 'everything', [('c', False, short()), ('c', True, short()), ('cl', False, poison()), ('u', None, rb(90)), ('h', None, rb(dlen(b, c))),
+                             ('c', False, G), ('f', False, good()), ('c', False, good())]
+        for _ in range(2 if quick else 6):
+            steps = []
+            for _ in range(rng.randrange(2, 7)):
+                k = rng.choice(['c', 'c', 'c', 'cl', 'u', 'ul', 'f', 'h'])
+                if k == 'c': steps.append(('c', rng.random() < .4, rng.choice([good, short, tiny, uniform])()))
+                elif k == 'cl': steps.append(('cl', rng.random() < .4, rng.choice([poison, lambda: list(short())])()))
+                elif k == 'u': steps.append(('u', None, rng.choice([good, short, tiny])()))
+                elif k == 'ul': steps.append(('ul', None, poison()))
+                elif k == 'f': steps.append(('f', rng.random() < .4, rng.choice([good, short])()))
+                else: steps.append(('h', None, rb(dlen(b, c) + rng.choice([0, 0, 1]))))
+            steps.append(('c', False, good()))
+            yield 'random', steps
+    cfgs = [('S', 5, 1)] + (rng.sample(CFGS, 5) + [(128, 5, 1), (256, 6, 3), (48, 4, 1)] if quick else CFGS)
+    for cfg in cfgs:
+        w = cfg[1]
+        for name, steps in patterns(cfg, w):
+            yield tl(cfg, steps), 'calls.%s.%s' % ('singleton' if cfg[0] == 'S' else 'object', name)
+    yield 'tlsh.calls 64 5 1 c:F:%s' % hx(tx(300)), 'calls.bad-config'
+    # ---- Nilsimsa
+    def nl(t, steps): return 'nilsimsa.calls %d %s' % (t, ' '.join(calls_tok(*st) for st in steps))
+    for t in [53] + [rng.randrange(256) for _ in range(1 if quick else 5)]:
+        msg = lambda: rng.choice([rb, tx])(rng.choice([rng.randrange(0, 12), rng.randrange(12, 300)]))
+        def poison():
+            d = list(rb(rng.randrange(8, 200))); d[rng.randrange(1, len(d) - 1)] = rng.choice([256, 1000]); return d
+        G = rb(150)
+        for name, steps in [('after-update', [('u', None, msg()), ('c', False, G)]),
+                            ('after-raise', [('cl', False, poison()), ('c', False, G)]),
+                            ('after-update-raise', [('ul', None, poison()), ('c', False, G), ('c', False, msg())]),
+                            ('after-calls', [('c', False, msg()), ('c', False, b''), ('c', False, G), ('cl', False, list(G))]),
+                            ('everything', [('c', False, msg()), ('u', None, msg()), ('cl', False, poison()), ('ul', None, poison()), ('c', False, G), ('u', None, rb(3)),
+                                            ('u', None, msg()), ('c', False, G), ('c', False, rb(4))])]:
+            yield nl(t, steps), 'calls.nilsimsa.' + name
+        for _ in range(4 if quick else 20):
+            steps, dirty = [], False         # (the window of an update that raised holds the value > 255: only a call, which resets, may follow)
+            for _ in range(rng.randrange(1, 6)):
+                st = rng.choice([('c', False, msg()), ('cl', False, poison())] + ([] if dirty else [('u', None, msg()), ('ul', None, poison())]))
+                dirty = st[0] in ('cl', 'ul'); steps.append(st)
+            yield nl(t, steps + [('c', False, msg())]), 'calls.nilsimsa.random'
+
+
 def cases(tier, rng):
     rb, tx, few = gens(rng)
     quick = tier == 'quick'
@@ -528,6 +723,8 @@ def cases(tier, rng):
             a = rb(32); bb = bytearray(a)
             for _ in range(rng.randrange(0, 4)): bb[rng.randrange(32)] ^= 1 << rng.randrange(8)
             yield 'nilsimsa.dist %s %s' % (hx(a), hx(bytes(bb))), 'search'
+            for ln, tg in calls_lines('quick', rng):
+                if rng.randrange(8) == 0: yield ln, 'search'
         return
 
     # ---- TLSH: the whole configuration grid at the length boundaries, both force flags
@@ -557,6 +754,8 @@ def cases(tier, rng):
     d = hx(tx(300))
     for cfg in ((64, 5, 1), (0, 5, 1), (512, 5, 1), (128, 3, 1), (128, 9, 1), (128, 0, 1), (128, 5, 2), (128, 5, 0), (128, 5, 4), (47, 4, 3)):
         yield L('tlsh', cfg, 'F', d), 'tlsh.bad-config'
+    # ---- ONE object through a history of calls
+    yield from calls_lines(tier, rng)
     # ---- finalisation on explicit state
     yield from final_lines(tier, rng)
     # ---- l_capturing, densely (data_len set on the object)
@@ -624,6 +823,20 @@ def cases(tier, rng):
 
 def shrink(line):
     t = line.split()
+    if t[0] in ('tlsh.calls', 'nilsimsa.calls'):
+        h = 4 if t[0] == 'tlsh.calls' else 2
+        head, steps = t[:h], t[h:]
+        for i in range(len(steps)):
+            if len(steps) > 1: yield ' '.join(head + steps[:i] + steps[i + 1:])
+        for i, st in enumerate(steps):                    # halve the data of a step (bytes or int list)
+            pre, _, d = st.rpartition(':')
+            if d[:1] == 'x' and len(d) > 9:
+                hlf = (len(d) - 1) // 4 * 2
+                for d2 in ('x' + d[1 + hlf:], d[:1 + hlf]): yield ' '.join(head + steps[:i] + [pre + ':' + d2] + steps[i + 1:])
+            elif d[:1] == 'l' and d.count(',') > 3:
+                v = d[1:].split(',')
+                for v2 in (v[len(v) // 2:], v[:len(v) // 2]): yield ' '.join(head + steps[:i] + [pre + ':l' + ','.join(v2)] + steps[i + 1:])
+        return
     if t[0] == 'tlsh.final' and len(t) == 8:
         try:
             b, c = int(t[1]), int(t[3]); bk = unil(t[5])
@@ -651,7 +864,12 @@ def shrink(line):
 LEVEL_TEXT = ('Lean 4 theorems about Model.Tlsh / Model.Nilsimsa (hand-written mirrors of crysp/tlsh.py and crysp/nilsimsa.py) for every configuration, '
               'input, force flag and digest pair, with l_capturing an uninterpreted parameter; the models are tied to the current source by the translator '
               '(Pearson table, probed triplet generator, probed body-scoring table, minimum lengths, Nilsimsa table) and by a boundary-directed correspondence '
-              'stream that also evaluates independent positional references of both algorithms and the distance laws on the real code.')
+              'stream that also evaluates independent positional references of both algorithms and the distance laws on the real code. A call on a '
+              'USED object: in the object model Model.Objects.TlshO the result of __call__ and the state it leaves are those of the first call on a new '
+              'object, from any state / after any history (tlsh_call_ignores_state, tlsh_call_ignores_history; Nilsimsa: nilsimsa_call_ignores_history), '
+              'and equal the one-shot function Model.Tlsh.tlsh of the call\'s own arguments (tlsh_call_is_oneshot); '
+              'the tlsh.calls / nilsimsa.calls lines drive ONE real object (and the module singleton) through histories and compare every call with '
+              'the one-shot model, spec and reference digest of its own arguments.')
 LEVEL_NOTE = ('Trusted: Lean kernel; axioms ⊆ {propext, Classical.choice, Quot.sound}; extract.py/runcheck.py/props/C19.py. There is NO executable reference '
               'implementation of TLSH or Nilsimsa in this image: Spec.Tlsh/Spec.Nilsimsa (and the Python references of the predicate) rest on the paper / '
               'nilsimsa.c text and are validated only against the known answers of /repo/tests/test_tlsh.py and test_nilsimsa.py (kept in corpus/C19.ops). '
